@@ -1023,7 +1023,7 @@ func (c *c16Chain) runPartition(hs []c16Head, p *c16Partition) c16Outcome {
 			return out
 		}
 		wantReg := m.fold(stN)[registeredSpec.name]
-		gotReg := renderedRows(node.Srv, registeredSpec)
+		gotReg := renderedRowsWithout(node.Srv, registeredSpec, "decrypted")
 		if d := diffRows(gotReg, wantReg); d != "" {
 			out.fail = &failure{"event_trigger_registered_event:" + diffKind(gotReg, wantReg), fmt.Sprintf("%s: position %d: registered triggers differ from the canonical chain's: %s", when, stN, d)}
 			return out
